@@ -156,4 +156,16 @@ theorem cached_inodes_are_reached_under_their_lock :
 example : GoNfsd.Model.Skeleton.slotCheck ("GetInodeCached", [(0, "LookupSlot")]) = false := by decide
 example : ("LockInode", [(0, "Acquire"), (0, "LookupSlot")]) ∈ GoNfsd.Gen.Skeleton.slotUses := by decide
 
+/-- THE MUTEX ASSUMPTION IS NOT A LOOPHOLE: a method that touches guarded fields and never locks is analysed as "called with
+    the mutex held" (`cache.Cache.evict`, called by `LookupSlot` under the lock).  That is sound only if nothing but the
+    struct's own methods can reach it: table `mutexAssumed`, regenerated on every run, lists every such method with whether
+    it is exported and how many plain functions of its package call it; all are internal (the debugging printer
+    `PrintCache`, exported but called by `evict` only, aside).  (Seeded change C14q takes the `Lock` / `Unlock` out of the exported `ShrinkerSt.Crash`, which
+    writes the flag that the shrinker threads read under the mutex.) -/
+theorem methods_assumed_to_hold_the_mutex_are_internal :
+    ∀ m ∈ GoNfsd.Gen.Skeleton.mutexAssumed, GoNfsd.Model.Skeleton.mutexAssumedCheck m = true := by decide
+
+example : GoNfsd.Model.Skeleton.mutexAssumedCheck ("mu_shrinker_ShrinkerSt_Crash", true, 0) = false := by decide
+example : ("mu_cache_Cache_evict", false, 0) ∈ GoNfsd.Gen.Skeleton.mutexAssumed := by decide
+
 end GoNfsd.Props.C14
